@@ -11,6 +11,8 @@ EXTRA_BASES = {
         'def f():\n    """doc\n    string"""\n',
         "class K:\n    @staticmethod\n    def m(a, b=(1, 2)):\n        return a\n\n    async def n(self):\n        pass\nx = lambda q: q\n",
         "def g(a,\n      b):\n    if a:\n        return b\n    else:\n        return a \\\n            + b\n",
+        "import x\n\nasync \\\ndef h(a):\n    return a\n\n@deco \\\n  (1)\ndef k():\n    pass\n",
+        'def d():\n    """doc\x0cwith form feed\u2028and separator\n    end"""\n\ndef e():\n    x = 1\x0c\n    return x\n',
     ],
     "C": ["#include <stdio.h>\n#define X(a) \\\n  (a)\nint main(int argc, char **argv) {\n  for (;;) { break; }\n  return 0;\n}\n",
           "static int f(void);\nstruct s { int a; };\nint f(void)\n{\n  return g(1)(2);\n}\n"],
@@ -37,7 +39,7 @@ def raw_tokens(lang, text):
 
 def apply_op(lang, text, op):
     k, a = op["k"], op["a"]
-    if k in ("Prefix", "Suffix", "DelToken", "DupToken", "SwapTokens"):
+    if k in ("Prefix", "Suffix", "DelToken", "DupToken", "SwapTokens", "BreakLine", "OddSpace"):
         toks = raw_tokens(lang, text)
         n = len(toks)
         if n == 0:
@@ -49,6 +51,11 @@ def apply_op(lang, text, op):
             return text[toks[a % n][0]:]
         i = a % n
         s, e = toks[i]
+        if k == "BreakLine":
+            return text[:s] + "\\\n" + text[s:]
+        if k == "OddSpace":
+            odd = ["\x0c", "\x0b", "\r", "\u2028", "\x85", "\x1c", "\u2029"]
+            return text[:s] + odd[a % len(odd)] + text[s:]
         if k == "DelToken":
             return text[:s] + text[e:]
         if k == "DupToken":
@@ -62,10 +69,15 @@ def apply_op(lang, text, op):
         if not text:
             return text
         return text[: (a * 37) % (len(text) + 1)]
-    if k in ("DelLine", "DupLine", "SwapLines"):
+    if k in ("DelLine", "DupLine", "SwapLines", "JoinLines"):
         lines = text.split("\n")
         n = len(lines)
         i = a % n
+        if k == "JoinLines":
+            if n < 2:
+                return text
+            i = a % (n - 1)
+            return "\n".join(lines[:i] + [lines[i] + " " + lines[i + 1].lstrip()] + lines[i + 2:])
         if k == "DelLine":
             return "\n".join(lines[:i] + lines[i + 1:])
         if k == "DupLine":
